@@ -257,7 +257,9 @@ m("c15-hwm-gt", ["C15"], ND, "        if self.get_state().dbid_high_water_mark >
 # ---- C18 / C19
 m("c18-keys-depend-on-value", ["C18"], "vls-core/src/signer/my_keys_manager.rs", None, None)
 # ---- C20
-m("c20-new-channel-lock-inversion", ["C20"], ND, "        // read the chain height first: the tracker lock comes before the channels lock\n        let blockheight = arc_self.get_tracker().height();\n        let mut channels = self.get_channels();", "        let mut channels = self.get_channels();\n        let blockheight = arc_self.get_tracker().height();")
+m("c20-new-channel-lock-inversion", ["C20"], ND, "        let tracker = arc_self.get_tracker();\n        let blockheight = tracker.height();\n        let mut channels = self.get_channels();", "        let mut channels = self.get_channels();\n        let tracker = arc_self.get_tracker();\n        let blockheight = tracker.height();")
+m("c20-sign-onchain-lock-inversion", ["C20"], ND, "        let mut tracker = self.get_tracker();\n        let channels_lock = self.get_channels();\n\n        // Funding transactions cannot", "        let channels_lock = self.get_channels();\n        let mut tracker = self.get_tracker();\n\n        // Funding transactions cannot")
+m("c20-height-read-before-stub", ["C20"], ND, "        let tracker = arc_self.get_tracker();\n        let blockheight = tracker.height();\n        let mut channels = self.get_channels();", "        let blockheight = arc_self.get_tracker().height();\n        let mut channels = self.get_channels();")
 
 
 def sh(cmd, **kw):
